@@ -357,6 +357,7 @@ def run(ctx):
                f.loc(ins), not bad, '%d sources; %s' % (n, bad or 'all are 0 or non-ACCEPT table values'), evals=max(n, 1))
 
     skip_bound(ctx, prog)
+    word_loop(ctx, prog)
 
 
 def skip_bound(ctx, prog):
@@ -389,6 +390,12 @@ def skip_bound(ctx, prog):
                     continue
                 live1 = fr.mem[(('param', 'bs'), ('live',))]
                 d1 = fr.mem[(('param', 'bs'), ('data',))]
+                buff0 = mem[(('param', 'bs'), ('buff',))]
+                buff1 = fr.mem[(('param', 'bs'), ('buff',))]
+                if 0 <= live1 <= live and buff1 != (buff0 << (live - live1)) & ((1 << 64) - 1):
+                    bad.append((live, skip, avail, 'discarded bits stay in the bit buffer (buff %#x with %d bits left)' % (
+                        buff1, live1)))
+                    continue
                 words = d1.path[-1]
                 disc = (live - live1) + 32 * words
                 total = live + 32 * avail
@@ -401,6 +408,60 @@ def skip_bound(ctx, prog):
     ctx.ob('C14.scan.skip_bound', 'the skip prologue of scan() discards at most skip+31 bits (never a whole word beyond '
            'the distance asked for) and stays inside the buffer', f.loc(), not bad,
            '%d (live, skip, words available) cases' % n if not bad else 'e.g. live=%d skip=%d words=%d: %s' % bad[0], evals=n)
+
+
+def word_loop(ctx, prog):
+    """the word-at-a-time loop of scan() examines every remaining word of the block: it runs while data < limit,
+    and what it leaves in bs->data when it falls out is its own cursor (nothing is skipped at the end of a block)"""
+    from prov import peel_cond, cmp_norm, path_key
+    f = prog.func('parse', 'scan')
+    P = Prov(prog, f)
+    lp = cfg.loops(f)
+    big = [i for i in f.insns() if i.op == 'load' and addr_key(P.addr(i.ops[0])).startswith('G:parse:big_dfa')]
+    heads = [h for h, body in lp.items() if all(i.block.name in body for i in big)]
+    # innermost loop containing all big_dfa lookups
+    heads.sort(key=lambda h: len(lp[h]))
+    if not heads:
+        broken('scan(): the byte-table lookups are not inside a loop')
+    h = heads[0]
+    body = lp[h]
+    t = f.blocks[h].term
+    ok = False
+    detail = ''
+    cursor = None
+    if t.op == 'br' and len(t.extra['targets']) == 2:
+        c, pol = peel_cond(P.expr(t.ops[0]))
+        cn = cmp_norm(c)
+        if cn:
+            pred, x, y = cn
+            detail = '%s %s %s' % (render(x)[:40], pred, render(y)[:40])
+            stay = t.extra['targets'][0] if pol else t.extra['targets'][1]
+            x, y = strip_casts(x), strip_casts(y)
+
+            def is_limit(e):
+                return e[0] == 'load' and path_key(e[1][2]) == '.limit'
+            if pred == 'ult' and x[0] == 'phi' and is_limit(y) and stay in body:
+                ok, cursor = True, x
+            elif pred == 'ugt' and y[0] == 'phi' and is_limit(x) and stay in body:
+                ok, cursor = True, y
+            elif pred == 'ne' and stay in body and ((x[0] == 'phi' and is_limit(y)) or (y[0] == 'phi' and is_limit(x))):
+                ok, cursor = True, (x if x[0] == 'phi' else y)
+    ctx.ob('C14.scan.word_loop', 'the word loop of scan() runs while data < limit (every remaining word of the block is '
+           'examined)', f.loc(t), ok, detail)
+    # after falling out of the loop: bs->data = cursor
+    okc = False
+    if cursor is not None:
+        exit_t = [x for x in t.extra['targets'] if x not in body]
+        if exit_t:
+            reach = cfg.reachable(f, exit_t[0])
+            for bn in reach | {exit_t[0]}:
+                for i in f.blocks[bn].insns:
+                    if i.op == 'store' and path_key(P.addr(i.ops[1])[2]) == '.data' and bn not in body:
+                        v = strip_casts(P.expr(i.ops[0]))
+                        if v == cursor:
+                            okc = True
+    ctx.ob('C14.scan.word_loop', 'when the word loop is exhausted, bs->data is left at the loop\'s own cursor', f.loc(),
+           okc, '')
 
 
 def _flatten_phi(P, e, seen=None):
